@@ -131,6 +131,9 @@ theorem bstar_deliver (e : EP) (w : WsIn) :
 /-- Whether the endpoint ignores deliveries. -/
 def deafE (e : EP) : Bool := e.srcEnded || e.inbox.any (fun x => x == .eof || x == .err)
 
+/-- … which is what the bind view shows (`deafV`). -/
+theorem deafE_eq (e : EP) : deafE e = deafV (bview e e.inbox) := rfl
+
 theorem bview_deliver_msg (e : EP) (m : Msg) (hm : m ≠ .close) :
     bview (opStep e (.deliver (.msg m))).1 (opStep e (.deliver (.msg m))).1.inbox =
       { bview e e.inbox with inbox := if deafE e then e.inbox else e.inbox ++ [.msg m] } := by
